@@ -442,7 +442,10 @@ def multi_mode_values(res):
     feed-forward gate"""
     import strawberryfields.backends.gaussianbackend.backend as gb
 
+    called = []
+
     def fake(cov, samples, *a, **kw):
+        called.append(1)
         return np.array([[10 + j for j in range(cov.shape[0] // 2)]] * samples)
 
     for which in ("MeasureFock", "MeasureThreshold"):
@@ -470,6 +473,10 @@ def multi_mode_values(res):
                     continue
                 finally:
                     gb.hafnian_sample_state, gb.torontonian_sample_state = sh, st
+                if not called:
+                    res.stats["multi_mode_sampler_not_recognised"] += 1  # the simulator samples some other way: nothing to judge
+                    continue
+                del called[:]
                 exp = {m: 10 + j for j, m in enumerate(modes)}
                 vals = {m: int(np.ravel(prog.register[m].val)[0]) for m in modes}
                 if vals != exp:
